@@ -137,7 +137,7 @@ package persistence
 //@   ensures[C14.load.roundtrip] err == nil && old(dbHas)["fans"][fanId(fan)] && (old(dbVal)["fans"][fanId(fan)] in jsonOkF) ==> data != nil && dbHas == old(dbHas) && encF(old(dbVal)["fans"][fanId(fan)], data)
 //@   ensures[C14.load.isolated] othersSame("fans", fanId(fan)) && dbVal == old(dbVal)
 //@   ensures dbWF()
-//@   modifies dbBucket, dbHas, dbVal, txBucket, txHas, txVal, decodeFailed, curveLoadCount, curveLoadOK, mapLoadCount, mapLoadOK, mapLoadRes
+//@   modifies dbBucket, dbHas, dbVal, txBucket, txHas, txVal, decodeFailed, curveLoadCount, curveLoadOK
 
 //@ func (persistence).DeleteFanPwmData$1
 //@   requires db != nil
@@ -154,8 +154,8 @@ package persistence
 //@ func (persistence).DeleteFanPwmData
 //@   props C14
 //@   requires fans.fanWF(fan) && dbWF()
-//@   ensures[C14.delete] result == nil ==> !dbHas["fans"][fanId(fan)]
-//@   ensures[C14.delete.isolated] othersSame("fans", fanId(fan))
+//@   ensures[C14.delete C15] result == nil ==> !dbHas["fans"][fanId(fan)]
+//@   ensures[C14.delete.isolated C15] othersSame("fans", fanId(fan))
 //@   ensures[C14.delete.atomic] result != nil ==> dbHas == old(dbHas) && dbVal == old(dbVal)
 //@   ensures dbWF()
 //@   modifies dbBucket, dbHas, dbVal, txBucket, txHas, txVal
@@ -208,7 +208,7 @@ package persistence
 //@   ensures[C14.loadmap.roundtrip] err == nil && old(dbHas)["fanPwmMap"][fanId] && (old(dbVal)["fanPwmMap"][fanId] in jsonOkI) ==> data != nil && dbHas == old(dbHas) && encI(old(dbVal)["fanPwmMap"][fanId], data)
 //@   ensures[C14.loadmap.isolated] othersSame("fanPwmMap", fanId) && dbVal == old(dbVal)
 //@   ensures dbWF()
-//@   modifies dbBucket, dbHas, dbVal, txBucket, txHas, txVal, decodeFailed, curveLoadCount, curveLoadOK, mapLoadCount, mapLoadOK, mapLoadRes
+//@   modifies dbBucket, dbHas, dbVal, txBucket, txHas, txVal, decodeFailed, mapLoadCount, mapLoadOK, mapLoadRes
 
 //@ func (persistence).DeleteFanPwmMap$1
 //@   requires db != nil
@@ -225,8 +225,8 @@ package persistence
 //@ func (persistence).DeleteFanPwmMap
 //@   props C14
 //@   requires dbWF()
-//@   ensures[C14.deletemap] result == nil ==> !dbHas["fanPwmMap"][fanId]
-//@   ensures[C14.deletemap.isolated] othersSame("fanPwmMap", fanId)
+//@   ensures[C14.deletemap C15] result == nil ==> !dbHas["fanPwmMap"][fanId]
+//@   ensures[C14.deletemap.isolated C15] othersSame("fanPwmMap", fanId)
 //@   ensures[C14.deletemap.atomic] result != nil ==> dbHas == old(dbHas) && dbVal == old(dbVal)
 //@   ensures dbWF()
 //@   modifies dbBucket, dbHas, dbVal, txBucket, txHas, txVal
@@ -276,3 +276,17 @@ package persistence
 //@   ensures[C14.delete.idempotent] err1 == nil && err2 != nil ==> dbHas == old(dbHas) || !dbHas["fans"][fanId(a)]
 //@   ensures[C14.delete.notfound] err1 == nil ==> loadErr != nil && !dbHas["fans"][fanId(a)]
 //@   modifies dbBucket, dbHas, dbVal, txBucket, txHas, txVal, decodeFailed, curveLoadCount, curveLoadOK, mapLoadCount, mapLoadOK, mapLoadRes
+
+// ---- Init ---------------------------------------------------------------------------------------------------
+//@ extern func path/filepath.Dir(path string) (d string)
+//@   effectfree
+//@   trusted "pure string function"
+//@ extern func os.MkdirAll(path string, perm os.FileMode) (err error)
+//@   effectfree
+//@   trusted "creating the database directory touches nothing the contracts speak about"
+//@ func (persistence).Init
+//@   modifies nothing
+
+//@ func NewPersistence
+//@   ensures result is *persistence && result.(*persistence) != nil
+//@   modifies nothing
